@@ -467,8 +467,10 @@ class SeriesOps:
                     return ("fstr", tuple(parts))
             try:
                 if all(isinstance(p, (str, int)) for p in pos):
-                    if name in ("startswith", "endswith", "lower", "upper", "strip", "split", "replace", "find", "rstrip", "lstrip", "format", "join", "isdigit"):
+                    if name in ("startswith", "endswith", "lower", "upper", "strip", "split", "replace", "find", "rstrip", "lstrip", "format", "join", "isdigit", "rsplit", "rfind", "removeprefix", "removesuffix", "count", "index"):
                         return getattr(obj, name)(*pos)
+                    if name in ("partition", "rpartition"):
+                        return PyTuple(list(getattr(obj, name)(*pos)))
             except Exception:
                 pass
             return ("call", "str." + name, T.C(obj)) + tuple(to_term(p) for p in pos)
@@ -503,6 +505,12 @@ class SeriesOps:
             for x in seq:
                 acc = M.invoke(a0, [acc, x], {}, node, "reduce-callee")
             return acc
+        if short == "fields" and name in ("fields", "dataclasses.fields") and len(pos) == 1 and isinstance(a0, (ClassRef, Obj)):
+            cref = (a0.mod, a0.qualname) if isinstance(a0, ClassRef) else a0.cls
+            cdef = cref[0].classes.get(cref[1]) if cref is not None else None
+            if cdef is not None and any("dataclass" in ast.unparse(d) for d in cdef.decorator_list):
+                # dataclasses.fields(C): one Field per annotated class attribute, in declaration order (only .name is modelled)
+                return [Obj(f"field:{st.target.id}", attrs={"name": st.target.id}) for st in cdef.body if isinstance(st, ast.AnnAssign) and isinstance(st.target, ast.Name)]
         if short == "compress" and len(pos) == 2 and not kw:
             d_, s_ = I._concrete_seq(I.materialise(pos[0]) if isinstance(pos[0], GenCall) else pos[0]), I._concrete_seq(I.materialise(pos[1]) if isinstance(pos[1], GenCall) else pos[1])
             if d_ is not None and s_ is not None and not any(isinstance(x, Each) for x in d_ + s_):
@@ -851,6 +859,10 @@ class SeriesOps:
             if isinstance(pos[1], str):
                 return self.M.getattr(a0, pos[1], node)
             return ("getattr", to_term(a0), to_term(pos[1]))
+        if fn == "setattr" and len(pos) == 3 and isinstance(a0, Obj) and isinstance(pos[1], str) and I.run.loop_depth == 0:
+            self.log("attr-store", node, obj=a0.name, attr=pos[1], value=to_term(pos[2]), how="setattr")
+            a0.attrs[pos[1]] = pos[2]          # setattr(obj, '<name>', v) with a known name is obj.<name> = v
+            return None
         if fn == "iter" and len(pos) == 1 and isinstance(a0, (list, PyTuple)) and I.run.loop_depth == 0 and not any(isinstance(x, Each) for x in (a0 if isinstance(a0, list) else a0.items)):
             return ListIter(a0 if isinstance(a0, list) else a0.items)          # a stateful iterator over known elements
         if fn in ("iter",):
